@@ -38,6 +38,7 @@ type frtProvSc struct {
 	LocalAdr bool           `json:"local_addr,omitempty"`
 	CancelMs int            `json:"cancel_ms,omitempty"`
 	SlowReadMs int          `json:"slow_read_ms,omitempty"` // the consumer pauses this long after every provider it reads
+	SelfProv bool           `json:"self_is_provider_1,omitempty"` // provider number 1 is the searching node itself (named by responders; its own store need not know)
 }
 
 // providers come from a pool of their own (the crawled peers use the whole peer pool)
@@ -71,6 +72,7 @@ func TestVerif_C08_FullRT(t *testing.T) {
 			if verifsim.Chance(t, "cancel", 15) {
 				sc.CancelMs = rapid.IntRange(1, 4000).Draw(t, "cancelMs")
 			}
+			sc.SelfProv = verifsim.Chance(t, "selfProv", 25)
 			if verifsim.Chance(t, "slowRead", 35) {
 				sc.SlowReadMs = rapid.SampledFrom([]int{1, 40, 700, 3000}).Draw(t, "slowReadMs")
 			}
@@ -93,6 +95,12 @@ func TestVerif_C08_FullRT(t *testing.T) {
 			}
 			out := verifsim.Bubble(t, func() {
 				h := verifnet.NewHost(peer.ID(pp.IDs[c16Pool-1]), []ma.Multiaddr{ma.StringCast("/ip4/8.200.0.1/tcp/1")})
+				provID := func(pn int) peer.ID {
+					if sc.SelfProv && pn == 1 {
+						return h.ID()
+					}
+					return frtProvID(pn)
+				}
 				defer h.Close()
 				ids := install(h, sc.Peers)
 				sim := verifnet.NewSim()
@@ -109,7 +117,7 @@ func TestVerif_C08_FullRT(t *testing.T) {
 					resp := &pb.Message{Type: req.Type, Key: req.Key}
 					if req.Type == pb.Message_GET_PROVIDERS {
 						for _, pn := range r.Provs {
-							mp := &pb.Message_Peer{Id: []byte(frtProvID(pn))}
+							mp := &pb.Message_Peer{Id: []byte(provID(pn))}
 							bare := false
 							for _, x := range r.NoAddr {
 								if x == pn {
@@ -135,7 +143,7 @@ func TestVerif_C08_FullRT(t *testing.T) {
 				ctx, cancel := context.WithCancel(context.Background())
 				defer cancel()
 				for _, pn := range sc.Local {
-					ai := peer.AddrInfo{ID: frtProvID(pn)}
+					ai := peer.AddrInfo{ID: provID(pn)}
 					if sc.LocalAdr {
 						ai.Addrs = []ma.Multiaddr{ma.StringCast(fmt.Sprintf("/ip4/8.78.%d.1/tcp/4001", pn))}
 					}
@@ -218,7 +226,11 @@ func TestVerif_C08_FullRT(t *testing.T) {
 						for _, e := range log {
 							lg = append(lg, fmt.Sprintf("%s->%d %v..%v %s provs=%d", e.Kind, idx[e.Peer], e.Start, e.End, e.Outcome, len(e.Resp.GetProviderPeers())))
 						}
-						res.Fail("count0-all", "C08/fullrt/missing", "count 0: a provider named in a delivered answer was not yielded; emits %v closed at %v; log %v", emits, closedAt, lg)
+						var es []string
+						for _, em := range emits {
+							es = append(es, fmt.Sprintf("%x@%v", []byte(em.id)[len(em.id)-3:], em.at))
+						}
+						res.Fail("count0-all", "C08/fullrt/missing", "count 0: provider %x named in a delivered answer was not yielded; emits %v closed at %v; log %v", []byte(p)[len(p)-3:], es, closedAt, lg)
 						break
 					}
 				}
